@@ -40,6 +40,14 @@ func main() {
 			fatal(err)
 		}
 		count++
+		if codec.Hangs >= 4 { // library calls that never return keep processors busy: stop here with what has been recorded
+			if err := w.Flush(); err != nil {
+				fatal(err)
+			}
+			f.Close()
+			fmt.Printf("wiredrv: %d records -> %s (stopped early: %d library calls did not return)\n", count, *out, codec.Hangs)
+			os.Exit(0)
+		}
 	}
 	runCase := func(c *codec.Case) *codec.CaseObs {
 		o, err := codec.RunCase(c)
@@ -209,7 +217,7 @@ func main() {
 			}
 		}
 		if has("raw") {
-			for i := 0; i < *n; i++ {
+			for i := 0; i < *n && codec.Hangs < 4; i++ {
 				for _, r := range g.RawInputs() {
 					emit(r)
 				}
